@@ -176,7 +176,7 @@ func (L *Loaded) computeImmutableGlobals() {
 					if s, ok := ins.(*ssa.Store); ok {
 						if g, ok := s.Addr.(*ssa.Global); ok {
 							if c, ok := s.Val.(*ssa.Call); ok {
-								if f := c.Call.StaticCallee(); f != nil && (f.String() == "fmt.Errorf" || f.String() == "errors.New") {
+								if f := c.Call.StaticCallee(); f != nil && (f.String() == "fmt.Errorf" || f.String() == "errors.New" || strings.HasPrefix(f.String(), "flag.") || strings.HasPrefix(f.String(), "github.com/spf13/pflag.")) {
 									L.nonNilGlobals[g.Pkg.Pkg.Path()+"."+g.Name()] = true
 								}
 							}
